@@ -16,13 +16,22 @@ import os
 
 from framework import REPO, ROOT
 
-TIE = ["Nsq.Tie.DiskQueue"]
-PROPS = ["Nsq.Props.E9DiskQueue"]
+TIE = ["Nsq.Tie.DiskQueue", "Nsq.Tie.DiskQueueArgs"]
+PROPS = ["Nsq.Props.E9DiskQueue", "Nsq.Props.E9Kill"]
+# theorems of other properties restated with the E9 model in place of the disk-queue assumption (round 7);
+# built and audited by the leg when it runs inside that property (C05, C07) and all of them by `./check E9`;
+# props/C01.py and props/C08.py list theirs in PROPS (they do not run this leg)
+GLUE = {"C05": ["Nsq.Props.C05DQ"], "C07": ["Nsq.Props.C07DQ"], "C01": ["Nsq.Props.C01DQ"], "C08": ["Nsq.Props.C08DQ"]}
 TRUSTED = [
     "go-diskqueue v1.1.0 is MODELLED (lean/Nsq/Model/DiskQueue.lean: files, metadata file, read/write positions, "
     "two-phase read, roll, sync, Empty/Close/Delete, re-open, read-error path with .bad files) and tied on every run: "
     "go.mod pin + sha256 of the module source (regenerated, Nsq.Tie.DiskQueue) and the correspondence harness "
     "harness/e9/dq_test.go on the real package (private state by reflection + file contents after every operation). "
+    "Round 7: the hard-kill behaviour is a theorem over every history (Nsq.Props.E9Kill: queue after a kill at a rest point of "
+    "ioLoop = records received since the last metadata write ++ queue, nothing lost, Depth() stale; no metadata file => everything "
+    "lost) with a direct oracle in the harness; a kill INSIDE one ioLoop pass and a power failure (un-fsynced data) are not modelled. "
+    "The arguments nsqd passes to diskqueue.New are translated expressions (Nsq.Tie.DiskQueueArgs); option values outside "
+    "`sane_options` (max-msg-size > 2^31-27, sync-every < 1, sync-timeout <= 0) are NOT validated by nsqd and are outside the theorems. "
     "Still assumed: OS I/O errors other than ENOENT do not occur; fmt.Fscanf/Fprintf of the five metadata integers; "
     "bodies < 2 GiB (int32 length); persistMetaData's temp-file + rename is one atomic step (FS assumption 4.5)",
 ]
@@ -80,13 +89,15 @@ def run_corr(ctx, binp, corr_broken, seed, n, steps, label):
 def leg(ctx, corr_broken, with_lean=True, thorough_n=600):
     ctx.trusted += TRUSTED
     ctx.gen("e9_dq")
+    ctx.gen("e9_dqargs")  # diskqueue.New(...) arguments of NewTopic/NewChannel as translated expressions
     if with_lean:
-        ok, log = ctx.lean_build(TIE + PROPS)
+        props = PROPS + (sum((GLUE[k] for k in sorted(GLUE)), []) if ctx.prop == "E9" else GLUE.get(ctx.prop, []))
+        ok, log = ctx.lean_build(TIE + props)
         if not ok:
-            ctx.lean_obligation_failed("lake build " + " ".join(TIE + PROPS), log[-1500:])
-        ctx.lean_audit(PROPS, TIE)
+            ctx.lean_obligation_failed("lake build " + " ".join(TIE + props), log[-1500:])
+        ctx.lean_audit(props, TIE)
         if ctx.thorough():
-            ctx.leanchecker(PROPS)
+            ctx.leanchecker(props)
     if not ctx.build_driver("e9"):
         corr_broken.append("driver e9 build")
     binp = ctx.go_test_binary("nsqd", ["e9/dq_test.go"], "e9dq")
